@@ -37,6 +37,12 @@ def main():
         print("patch does not apply:\n" + r.stdout)
         return 2
     results = {}
+    # the evidence files describe the unchanged tree: keep them out of the way
+    import shutil, tempfile
+    evdir = os.path.join(ROOT, "evidence")
+    keep = tempfile.mkdtemp(prefix="evidence-keep-", dir=ROOT)
+    for f in os.listdir(evdir):
+        shutil.copy2(os.path.join(evdir, f), keep)
     try:
         for p in props:
             t0 = time.time()
@@ -49,6 +55,9 @@ def main():
             print(p, "exit", r.returncode, "violations", len(viol), results[p]["sigs"][:5])
     finally:
         sh(["git", "-C", "/repo", "checkout", "--", "."])
+        for f in os.listdir(keep):
+            shutil.copy2(os.path.join(keep, f), evdir)
+        shutil.rmtree(keep)
     json.dump({"ran": time.strftime("%Y-%m-%d %H:%M:%S"), "tier": tier, "results": results},
               open(os.path.join(d, "result.json"), "w"), indent=1)
     return 0
